@@ -140,6 +140,23 @@ func checkLoops(r *Run, rc *RuleCtx, fn *ssa.Function, sums map[*ssa.Function]*I
 			if !stayOnTrue {
 				small, big = big, small
 			}
+			// a value-preserving conversion of the counter (int(t) for a named integer type, a widening
+			// conversion of the same signedness) compares like the counter itself
+			for n := 0; n < 3; n++ {
+				if ct, isCT := small.(*ssa.ChangeType); isCT {
+					small = ct.X
+					continue
+				}
+				if cv, isCV := small.(*ssa.Convert); isCV {
+					w1, s1, ok1 := intWidth(cv.X.Type())
+					w2, s2, ok2 := intWidth(cv.Type())
+					if ok1 && ok2 && s1 == s2 && w2 >= w1 {
+						small = cv.X
+						continue
+					}
+				}
+				break
+			}
 			// increasing counter: small is a header phi, big loop invariant
 			if ph, ok := small.(*ssa.Phi); ok && ph.Block() == lp.Header && loopInvariant(lp, big) {
 				all := true
@@ -184,6 +201,61 @@ func checkLoops(r *Run, rc *RuleCtx, fn *ssa.Function, sums map[*ssa.Function]*I
 						rc.Instance(key, true, map[string]string{"fn": fnName(fn), "loop": "window " + exprDepth(ph, 0) + " strictly shrinks"})
 						break
 					}
+				}
+			}
+		}
+		// (c) a flag-bounded loop (`for retried := false; ; retried = true { ... if retried { return } ... }`):
+		// a boolean header phi that is false on entry and true on every back edge, and a test of it whose
+		// true outcome leaves the loop and which every path to a back edge has passed: at most two rounds
+		if !decided {
+			for _, in := range lp.Header.Instrs {
+				ph, isPhi := in.(*ssa.Phi)
+				if !isPhi {
+					break
+				}
+				if b, isB := ph.Type().Underlying().(*types.Basic); !isB || b.Kind() != types.Bool {
+					continue
+				}
+				okShape := true
+				for i, e := range ph.Edges {
+					c, isC := e.(*ssa.Const)
+					if !isC || c.Value == nil {
+						okShape = false
+						break
+					}
+					inside := lp.Body[lp.Header.Preds[i]]
+					if (c.Value.String() == "true") != inside {
+						okShape = false
+					}
+				}
+				if !okShape {
+					continue
+				}
+				for blk := range lp.Body {
+					iff, isIf := blk.Instrs[len(blk.Instrs)-1].(*ssa.If)
+					if !isIf {
+						continue
+					}
+					cond, leaveOn := iff.Cond, 0
+					if u, isU := cond.(*ssa.UnOp); isU && u.Op == token.NOT {
+						cond, leaveOn = u.X, 1
+					}
+					if cond != ssa.Value(ph) || lp.Body[blk.Succs[leaveOn]] {
+						continue
+					}
+					all := true
+					for _, lt := range lp.Latch {
+						if !blockDominates(blk, lt) {
+							all = false
+						}
+					}
+					if all {
+						decided = true
+						rc.Instance(key, true, map[string]string{"fn": fnName(fn), "loop": "flag " + exprDepth(ph, 0) + ": false on entry, true on every back edge, the loop is left when it is set"})
+					}
+				}
+				if decided {
+					break
 				}
 			}
 		}
@@ -503,6 +575,14 @@ func runC01(r *Run) {
 	np.Done()
 
 	// ---- allocation taint
+	sh := r.Rule("C01.shared", "the decode closure - including the String/Error methods of the values it formats into its error messages - uses package-level variables only if nothing changes them after initialisation (or one mutex guards every access): decoding is independent of what was decoded before and safe for concurrent callers (a map written while read is a fatal error, not a panic that can be recovered)", 1)
+	{
+		fns := append([]*ssa.Function{}, cl.D...)
+		fns = append(fns, fmtReachable(p, cl.D)...)
+		checkSharedState(r, sh, fns)
+	}
+	sh.Done()
+
 	al := r.Rule("C01.alloc", "no integer read from message bytes reaches the size operand of make in the decode closure", 0)
 	nAlloc := 0
 	for _, fn := range cl.D {
@@ -550,6 +630,8 @@ func runC01(r *Run) {
 			b.Fail("stale justified entry "+e.Fn+" "+e.Construct, "a justified-exception line matches nothing")
 		}
 	}
+	// on every path Decode empties the attribute list before it reports success: no value of an earlier message is exposed (shared with C08)
+	r.Borrow("C08", map[string]string{"C08.reset": "C01.reset"})
 }
 
 // extAllowed: external callee allowed in no-panic closures.
